@@ -44,7 +44,16 @@ impl Mock {
 
 impl Read for Mock {
     fn read(&mut self, buf: &mut [u8]) -> std::io::Result<usize> {
-        self.wire.lock().unwrap().reads += 1;
+        let reads = {
+            let mut w = self.wire.lock().unwrap();
+            w.reads += 1;
+            w.reads
+        };
+        // a connection that keeps reading an exhausted transport is spinning: no client can end it.
+        // The process leaves with a code the parent records as outcome "hang" (no Conn action).
+        if reads > 100_000 {
+            std::process::exit(97);
+        }
         if self.read_error {
             return Err(std::io::Error::new(std::io::ErrorKind::ConnectionReset, "scripted read error"));
         }
